@@ -45,9 +45,15 @@ def norm(text, strip_modules=(), aliases=None, ancestors=None):
   appears after stripping) -> set of its transitive base-class names."""
   tree = ast.parse(text.strip(), mode="eval").body
   _ALIAS_STACK.append(aliases or {})
-  _HIER_STACK.append(dict(ancestors or {}, bool={"int"}))
+  mods = tuple(strip_modules)
+  # base names are spelled as in the stub (possibly through an import alias,
+  # possibly builtin or from another module): bring them to the same form
+  # as the union members they are compared with
+  hier = {k: {_strip(x, mods) for x in v} for k, v in (ancestors or {}).items()}
+  hier["bool"] = {"int"}
+  _HIER_STACK.append(hier)
   try:
-    return _norm(tree, tuple(strip_modules))
+    return _norm(tree, mods)
   finally:
     _ALIAS_STACK.pop()
     _HIER_STACK.pop()
@@ -55,8 +61,9 @@ def norm(text, strip_modules=(), aliases=None, ancestors=None):
 
 def class_ancestors(classes, prefix=""):
   """{qualified class name: transitive bases} from a stub's class table
-  (simpair.read_stub format), nested classes included. Only bases that are
-  plain names of classes of the same stub count."""
+  (simpair.read_stub format), nested classes included; bases outside the
+  stub (builtins, other modules) count as ancestors too, parameterised bases
+  do not."""
   direct = {}
 
   def walk(table, pre):
@@ -72,8 +79,10 @@ def class_ancestors(classes, prefix=""):
       return out[q]
     res = set()
     for b in direct.get(q, ()):
-      if b in direct and b not in seen:
-        res.add(b)
+      if b in seen or b == "object" or "[" in b:
+        continue
+      res.add(b)            # also builtin bases (int) and bases from other
+      if b in direct:       # modules (up.C13): B's optimizer knows them too
         res |= anc(b, seen + (q,))
     out[q] = res
     return res
